@@ -3,6 +3,7 @@ import Bolt.Driver.FL
 import Bolt.Driver.Api
 import Bolt.Driver.Store
 import Bolt.Driver.Grow
+import Bolt.Driver.Cursor
 open Bolt.Driver
 
 def main (args : List String) : IO UInt32 := do
@@ -12,6 +13,7 @@ def main (args : List String) : IO UInt32 := do
   | ["api"] => cmdApi false; return 0
   | ["store"] => cmdStore; return 0
   | ["grow"] => cmdGrow; return 0
+  | ["cursor"] => cmdCursor; return 0
   | ["api-verbose"] => cmdApi true; return 0
   | ["decode", path, os] => cmdDecode path (parseNat os) false; return 0
   | ["decode-verbose", path, os] => cmdDecode path (parseNat os) true; return 0
